@@ -99,6 +99,8 @@ class Builder:
             if r is not None:
                 if r[0] == 'dangling':
                     rel = RelationLink(co.Wait(99), RT[r[1]])
+                elif r[0] == 'multi':      # relation to a group of earlier entries (structure-level API)
+                    rel = MultiRelationLink(_reference_nodes=[entries[i] for i in r[2]], _relation_type=RT[r[1]])
                 else:
                     rel = RelationLink(entries[r[1]], RT[r[0]])
             op = self.make_leaf(c, rel, circuit)
@@ -128,7 +130,7 @@ def observe(circuit, top_entries=None):
     for o in ops:
         r = rel_of(o)
         if r is not None:
-            r['ref_pos'] = pos.get(r.pop('ref_id'), -1)
+            r['ref_pos'] = pos.get(r.pop('ref_id'), -2 if r['comp'] else -1)     # -2: referent is a sub-circuit; -1: not listed at all
         e = {'cls': type(o).__name__, 'ch': [[c.id, c.channel.name] for c in o.channel_identifiers],
              's': ticks(o.start_time), 'e': ticks(o.end_time), 'd': ticks(o.duration), 'rel': r}
         if top_entries and id(o) in top_entries:
